@@ -63,6 +63,40 @@ def run_batch(ctx, module, cfg, cases, observers, sigfn, negfn=None, chunk=30000
     flush()
 
 
+def run_opt(ctx, module, cfg, obs, inner_cases, sigfn, flags_list=(("-O",), ("-OO",)), env=None, parts=6):
+    """the cases of observer `obs` ("driver:key") evaluated in child interpreters started with other interpreter options
+    (drivers/optchild), judged by the same acceptor; violations are reported per single case (replayable)"""
+    from concurrent.futures import ThreadPoolExecutor
+
+    from ..drivers.optchild import obs_opt
+
+    inner_cases = list(inner_cases)
+    if not inner_cases:
+        return
+    key = obs.split(":")[1]
+    for flags in flags_list:
+        step = max(1, -(-len(inner_cases) // parts))
+        chunks = [inner_cases[k:k + step] for k in range(0, len(inner_cases), step)]
+        with ThreadPoolExecutor(max_workers=parts) as ex:
+            res = list(ex.map(lambda ch: obs_opt({"obs": obs, "cases": ch, "flags": list(flags)}), chunks))
+        evs = [e for r in res for e in r]
+        if len(evs) != len(inner_cases):
+            raise MachineryError("opt child returned %d events for %d cases" % (len(evs), len(inner_cases)))
+        verdicts = ctx.validate(module, cfg, evs, env=env, label=module + "-opt", nreal=len(evs))
+        for i, ev, v in zip(inner_cases, evs, verdicts):
+            ctx.evaluations += 1
+            inp = {"obs": obs, "cases": [i], "flags": list(flags)}
+            if v == "triv":
+                continue
+            if v.startswith("EXT:"):
+                ctx.ext_divergence(v, {"observer": "opt", "input": inp})
+            elif v == "ok":
+                ctx.nontrivial += 1
+            else:
+                ctx.violation(v, sigfn(key, i, ev, v), {"observer": "opt", "input": inp})
+    ctx.extra["interpreter_option_runs"] = ctx.extra.get("interpreter_option_runs", 0) + len(inner_cases) * len(flags_list)
+
+
 _OBS = None
 
 
@@ -117,7 +151,10 @@ def replay_one(ctx, module, cfg, observers, body, sigfn, env=None):
     if v.startswith("EXT:"):
         ctx.ext_divergence(v, case)
     elif v not in ("ok", "triv"):
-        ctx.violation(v, sigfn(o, i, ev, v), case)
+        if o == "opt":  # (signatures are those of the wrapped observer's single case)
+            ctx.violation(v, sigfn(i["obs"].split(":")[1], i["cases"][0], ev, v), case)
+        else:
+            ctx.violation(v, sigfn(o, i, ev, v), case)
     else:
         ctx.nontrivial += 1 if v == "ok" else 0
     ctx.sample({"observer": o, "input": i, "verdict": v})
